@@ -273,6 +273,7 @@ static bool exhaustive(const rt::Args &args, rt::Stats &stats, rt::Failure &fail
         for (int mis = 0; mis < 2; mis++) {
             Case c; c.misaligned = mis;
             c.ops = {mk(NEW, {size, 1, 0}), mk(REF, {0}), mk(NEW, {size, 0, 0}), mk(UNREF, {0}), mk(SIZE, {1}), mk(UNREFP, {0})};
+            rt::watch_tick(&c);
             rt::Verdict v = args.fork_per_case ? rt::run_forked(args.prop, [&] { return eval_case(c, args); }) : eval_case(c, args);
             total++;
             v.nontrivial = true; // every size is its own case of the alignment/size clause
@@ -302,6 +303,7 @@ int main(int argc, char **argv) {
     E.from_text = from_text;
     E.default_cases = [](const rt::Args &a) { return a.tier == "thorough" ? 300000L : 30000L; };
     E.exhaustive = exhaustive;
+    E.hang_is_failure = true;
     return rcm::run(argc, argv, E);
 }
 #endif // !FUZZ_TARGET
